@@ -11,7 +11,7 @@
 //           bit 3: the re-loaded BDD automaton gets another fresh alphabet
 // output: [S <hextext>] P (OK <desc> | EXC <class>) { <ENC> (OK <hexdump1> <hexdump2> | EXC <stage> <class>) } for ENC = ET BU TD FA
 //         stage: 1 load, 2 dump, 3 load of the dump, 4 dump again;  class: runtime_error | std_exception | non_std
-// A crash or a time-out (SIGALRM after 30 s per case) ends the process; harness/core.py reports it for the case.
+// A crash or a time-out (SIGALRM after 10 s per case, 60 s under ASan) ends the process; harness/core.py reports it for the case.
 #include <vata/explicit_tree_aut.hh>
 #include <vata/explicit_finite_aut.hh>
 #include <vata/bdd_bu_tree_aut.hh>
@@ -135,11 +135,17 @@ static std::string onText(const std::string& text, unsigned flags) {
 	return os.str();
 }
 
+#if defined(__SANITIZE_ADDRESS__)
+static const unsigned CASE_SECONDS = 60;
+#else
+static const unsigned CASE_SECONDS = 10;
+#endif
+
 int main() {
 	std::ios::sync_with_stdio(false);
 	std::string line;
 	while (std::getline(std::cin, line)) {
-		alarm(30);
+		alarm(CASE_SECONDS);
 		std::string out;
 		try {
 			Toks t(line);
